@@ -281,10 +281,50 @@ fn gen_rules() -> BoxedStrategy<Value> {
     gen::case2(rules::rooted(cfg), gen::data_docs())
 }
 
+
+const KINDS: u64 = 4;
+fn check_sizes(case: &Value, obs: &mut Obs) -> Result<(), String> {
+    let n = case["n"].as_u64().unwrap_or(1) as usize;
+    let k = case["k"].as_u64().unwrap_or(0);
+    let data = json!({"xs": sized_array(n)});
+    let xs = json!({"var": "xs"});
+    let rule = match k {
+        0 => json!({"map": [xs, {"var": ""}]}),
+        1 => json!({"filter": [xs, {"var": ""}]}),
+        2 => json!({"reduce": [xs, {"var": "current"}, 0]}),
+        // map over filter: twice the work, so only up to 4097 elements (the model's step budget)
+        _ if n < 5000 => json!({"map": [{"filter": [xs, {"var": ""}]}, {"var": ""}]}),
+        _ => json!({"filter": [{"map": [xs, {"var": ""}]}, false]}),
+    };
+    size_case(&rule, &data, obs, &format!("size kind {} n {}", k, if n < 1000 { "~2^8" } else if n < 10000 { "~2^12" } else { "~2^16" }))
+}
+
+fn fixed_sizes() -> Vec<Value> {
+    let mut out = vec![];
+    for n in SIZE_EDGES {
+        for k in 0..KINDS {
+            out.push(json!({"n": n, "k": k}));
+        }
+    }
+    out
+}
+
 pub fn property() -> Property {
     Property {
         id: "C13",
         subs: vec![
+            Sub {
+                name: "size_boundaries",
+                about: "collections of exactly 255 ... 65537 elements through map (same length, order), filter (zeros removed), reduce (last element wins) and map over filter, against the reference model.",
+                nontrivial: "every case.",
+                strategy: None,
+                fixed: Some(fixed_sizes),
+                fixed_exhaustive: true,
+                check: check_sizes,
+                quick: 0,
+                thorough: 0,
+                small_stack: false,
+            },
             Sub {
                 name: "hof_laws",
                 about: "map / filter / reduce over collections that are literal, computed (var, merge, nested filter / map), null (literal, computed, absent) or not arrays, with element expressions (identity, field access, arithmetic, the non-commutative cat of accumulator and current, nested higher-order operators, probes for outer names incl. missing / missing_some, {\"var\":\"\"} inside reduce) and outer data holding keys named a / current / accumulator / outer that must stay invisible; oracle = the model plus model-free laws: map output i is the expression on element i alone, filter keeps exactly the truthy elements unchanged in order, reduce equals the explicit left fold over {current, accumulator} from the evaluated initial value, non-array non-null collections are errors.",
